@@ -14,7 +14,7 @@ PROP = "C02"
 
 RAW_INV = ("TypeOK", "NoDuplicateRecord", "TocSound", "TocComplete", "KeyLenOK", "HandleHdrOK", "OneWriter")
 RAW_PROPS = ("FailedOpIsNoOp", "GetReturnsThePut", "HeadersPreserved", "RecordsImmutable", "Refines")
-RAW_ACTIONS = ("NewX", "New", "Reopen", "Close", "Put", "Get")
+RAW_ACTIONS = ("NewX", "New", "Reopen", "Close", "Pickle", "Put", "Get")
 
 
 def raw_cfg(tier, dev="DevNone"):
@@ -22,7 +22,7 @@ def raw_cfg(tier, dev="DevNone"):
     return dict(spec="Spec", constants={
         "Key": "<- KeysT" if big else "<- KeysQ", "Val": "<- ValsT" if big else "<- ValsQ",
         "KeyLen": "<- KLen", "ValLen": "<- VLen", "Handle": "<- H3" if big else "<- H2", "Hdr": "<- HdrQ",
-        "NoHdr": '"none"', "MaxRecs": 3, "Deviations": f"<- {dev}"},
+        "NoHdr": '"none"', "HdrLen": "<- HL", "MaxRecs": 3, "Deviations": f"<- {dev}"},
         invariants=RAW_INV, properties=RAW_PROPS, view="View")
 
 
@@ -117,6 +117,38 @@ def backend_layer(tier, seed, ev, rep):
         rep.note(f"backend layer {buf},{ro}: {stats}")
 
 
+TRACE_CFG = dict(spec="TraceSpec", constants={
+    "Key": "<- TraceKeys", "Val": "<- TraceVals", "KeyLen": "<- TraceKLen", "ValLen": "<- TraceVLen",
+    "Handle": "<- TraceHandles", "Hdr": "<- HdrT", "NoHdr": '"none"', "HdrLen": "<- HLT", "MaxRecs": 100000,
+    "Deviations": "<- DevNone"}, invariants=("NoDuplicateRecord", "TocSound", "TocComplete", "KeyLenOK", "OneWriter"))
+
+
+def direction_b(tier, seed, ev, rep):
+    """Seeded random long histories on real UKVFile objects, validated by TLC against UKVFile.tla."""
+    from ..drivers_ukv import history
+    from .. import trace as T
+    n, length = (6, 150) if tier == "quick" else (60, 300)
+    traces = [history(seed * 1000 + i, length) for i in range(n)]
+    # one universe per TLC batch: every trace is validated in its own chunk
+    verdicts, results = T.validate("UKVFileTrace", traces, TRACE_CFG, chunk=1, par=6, tag="c02tr")
+    for r in results[:1]:
+        ev.add_tlc(r, "UKVFileTrace validation (first batch)")
+    bad = 0
+    for t in traces:
+        v, l = verdicts[t["tid"]]
+        if v != "ACCEPT":
+            bad += 1
+            e = t["ev"][l - 1]
+            rep.violation("ukv-trace", {"seed": int(t["tid"].split("-")[1]), "length": length, "stuck_at": l, "event": e,
+                                        "context": t["ev"][max(0, l - 6):l + 1]},
+                          what=f"{t['tid']}: event {l} is not a step of UKVFile: {json.dumps(e)[:300]}")
+    nev = sum(len(t["ev"]) for t in traces)
+    ev.count(evaluations=nev, distinct_nontrivial=nev, traces=len(traces))
+    ev.add_samples([{"direction": "B", "events": traces[0]["ev"][20:24]}], 1)
+    ev.set(random_histories={"traces": len(traces), "events": nev, "rejected": bad})
+    rep.note(f"direction B: {len(traces)} random histories, {nev} events, {bad} rejected")
+
+
 def run(tier, seed, replay_path):
     ev = Evidence(PROP, tier, seed)
     rep = Reporter(PROP, ev)
@@ -124,6 +156,7 @@ def run(tier, seed, replay_path):
         return do_replay(replay_path)
     raw_layer(tier, seed, ev, rep)
     backend_layer(tier, seed, ev, rep)
+    direction_b(tier, seed, ev, rep)
     ev.set(rule="one case = one (spec state, action) pair of the bounded TLC graph replayed on real objects; "
                 "non-trivial = distinct pair; evaluations = real calls made")
     ev.assumptions += ["scope: one writable handle at a time (collection lock), mode 'w' re-creation not generated",
@@ -134,6 +167,16 @@ def run(tier, seed, replay_path):
 def do_replay(path):
     doc = json.loads(open(path).read())
     kind = doc["kind"]
+    if kind == "ukv-trace":
+        from ..drivers_ukv import history
+        from .. import trace as T
+        t = history(doc["seed"], doc["length"])
+        verdicts, _ = T.validate("UKVFileTrace", [t], TRACE_CFG, chunk=1, tag="c02rp")
+        print(json.dumps(verdicts))
+        if verdicts[t["tid"]][0] != "ACCEPT":
+            print(f"VIOLATION property={PROP} replay={path}")
+            return 1
+        return 0
     if kind == "replay-ukvfile":
         ad = UKVAdapter(("h1", "h2", "h3"))
     else:
